@@ -5,6 +5,7 @@ from props.common import *
 from props.hmcommon import *
 
 HARNESSES = harnesses('quick')
+LEVEL = 'exploration'
 ASSUMPTIONS = [
     'SC interleavings only in this check; linearizability of every explored history is decided exactly (set/map specification incl. a final membership probe of every key)',
     'the reuse-allocator mode (--aba: a freed node is handed out again by the next allocation of the same size) is used to look for ABA; in the default mode freed nodes are quarantined and every access to them is a violation',
